@@ -36,7 +36,7 @@ def apply(fc):
     for fn, rel in [('parse_speed_over_ground', 'sog_rel'), ('parse_longitude', 'lon_rel'), ('parse_latitude', 'lat_rel'), ('parse_cog', 'cog_rel')]:
         fc.contract(fn, ensures=['%s(data, r)' % rel], tags=['C10', 'C11'])
         fc.body_prefix(fn, F32)
-    fc.contract('parse_heading', ensures=['r == heading_spec(data)'], tags=['C11'])
+    fc.contract('parse_heading', ensures=['r == heading_spec(data)'], tags=['C11', 'C04'])
     fc.contract('parse', within='impl Accuracy', requires=['data <= 1'], ensures=['r == accuracy_spec(data)'], tags=['C12'])
     # `128 => None` on an i8 scrutinee (overflowing literal) is rejected by Verus: assumed here, K complete over all 256 codes
     fc.contract('parse', within='impl RateOfTurn', ensures=['r == rot_spec(data)'], external_body=True, tags=['C11'])
